@@ -546,7 +546,7 @@ func (r *vrun) tracer() *sourcebundle.BuildTracer {
 			r.crashProbe("trace-"+kind, len(r.trace))
 		}
 	}
-	return &sourcebundle.BuildTracer{
+	tr := &sourcebundle.BuildTracer{
 		RegistryPackageVersionsStart: func(ctx context.Context, p regaddr.ModulePackage) context.Context {
 			ev("versions-start", p.String())
 			return ctx
@@ -594,6 +594,10 @@ func (r *vrun) tracer() *sourcebundle.BuildTracer {
 			ev("diagnostics", fmt.Sprint(len(diags)))
 		},
 	}
+	if r.va.Tracer == "nodiag" {
+		tr.Diagnostics = nil
+	}
+	return tr
 }
 
 func diagSig(d sourcebundle.Diagnostic) string {
